@@ -260,7 +260,15 @@ class Gen:
         if kind == "block":
             return [("block", self.body(env, depth + 1, r.randrange(0, 5)))]
         if kind == "scope":
-            return [("scope", self.fresh("sc_"), self.body(env, depth + 1, r.randrange(1, 5)))]
+            name = self.fresh("sc_")
+            inner = self.body(env, depth + 1, r.randrange(1, 5))
+            out = [("scope", name, inner)]
+            exported = [s[1] for s in inner if s[0] == "label"]
+            if exported and r.random() < 0.7:
+                q = f"{name}.{r.choice(exported)}"
+                env.setdefault("late", []).append(q)
+                out.append(("data", r.choice(["dw", "dl"]), [q]))
+            return out
         if kind == "if":
             cond = r.choice(["0", "1", "2", "0x100", "undefined_name", "1 - 1", "0 + 1"] +
                             list(env["consts"])[:3])
@@ -285,6 +293,10 @@ class Gen:
                                 if r.random() < 0.6 else self.lit(r.choice([0, 1, 0x20, 0x1234])))
             return [("apply", name, args)]
         if kind == "org":
+            if env["local_labels"] and env["labels_back"] and r.random() < 0.3:
+                cands = [l for l in env["labels_back"] if l in env["local_labels"]]
+                if cands:
+                    return [("orgexpr", r.choice(cands))]
             return [("org", self.origin())]
         if kind == "reloc":
             return [("reloc", r.choice([0x7E0000, 0x7E2000, 0x7F0100]) if r.random() < 0.6 else self.origin())]
@@ -324,7 +336,21 @@ class Gen:
                 body.append(r.choice([("data", "db", [p]), ("data", "dw", [f"{p} + 1"]), ("data", "dl", [p]),
                                       ("op", f"lda.w #{p}"), ("op", f"sta.l {p}"), ("op", f"ldx.b #{p}&0xFF")]))
             elif takes_code and k < 0.7:
-                body.append(("lookup", params[-1]))
+                lk = ("lookup", params[-1])
+                shape = r.random()
+                if shape < 0.4:
+                    body.append(lk)
+                elif shape < 0.55:
+                    body.append(("block", [("data", "db", ["1"]), lk]))
+                elif shape < 0.7:
+                    body.append(("for", self.fresh("i_"), "0", "2", [lk]))
+                elif shape < 0.8:
+                    body.append(("scope", self.fresh("sc_"), [lk]))
+                elif shape < 0.9:
+                    body.append(("if", "1", [lk], None))
+                else:
+                    inner = [m for m in self.macros if m[2] and len(m[1]) == 1]
+                    body.append(("apply", inner[0][0], [("code", [lk])]) if inner else lk)
             elif k < 0.8:
                 lab = self.fresh("ml_")
                 body += [("label", lab), ("data", "dw", [lab])]
@@ -355,6 +381,8 @@ def render(stmts, indent=0) -> str:
         k = s[0]
         if k == "org":
             lines.append(f"{pad}*={s[1]:#08x}")
+        elif k == "orgexpr":
+            lines.append(f"{pad}*={s[1]}")
         elif k == "reloc":
             lines.append(f"{pad}@={s[1]:#08x}")
         elif k == "label":
